@@ -89,6 +89,17 @@ def runner(rep, tier, seed, replay):
             line, b, a = place(t, stable_hash(t))
             jobs.append({"entry": "c", "text": line, "timeout": 6, "want_files": False})
             meta.append(("range", "stepped" if step else "plain", line, b, a, words, {"t": t, "feat": {"descending": v["m"] > v["n"], "step": v["step"], "negative": v["m"] < 0 or v["n"] < 0}}, False, None))
+        elif v["kind"] == "bglob":
+            pat = chars(v["pat"])
+            pop = [chars(x) for x in v["pop"]]
+            words = []
+            for part in v["parts"]:
+                mm = sorted(chars(x) for x in part["matches"])
+                words += mm if mm else [chars(part["w"])]
+            files = {p: "" for p in pop}
+            line, b, a = place(pat, stable_hash(pat + "".join(sorted(pop))) % 3)        # (not next to another brace word)
+            jobs.append({"entry": "c", "text": line, "files": files, "timeout": 6, "want_files": False})
+            meta.append(("bglob", pat, line, b, a, words, {"t": pat, "files": files, "feat": {"pattern": pat, "brace_and_glob": True}}, False, None))
         else:
             pat = chars(v["pat"])
             pop = [chars(x) for x in v["pop"]]
@@ -107,8 +118,8 @@ def runner(rep, tier, seed, replay):
         meta.append(("tilde", kind, line, ["L"], ["R"], exp or [w], {"t": w, "feat": {"tilde": kind}}, kind == "other-user", None))
     # ---- pairs: two expansion words of different kinds in one command (the words of the line keep their relative order; an
     # expansion of one word must not disturb its neighbour) - the second word never is a glob, so one population suffices
-    single = [m for m in meta if not m[7] and m[0] in ("brace", "range", "glob") and (m[0] != "brace" or "{" in m[6]["t"])]
-    nonglob = [m for m in single if m[0] != "glob"]
+    single = [m for m in meta if not m[7] and m[0] in ("brace", "range", "glob", "bglob") and (m[0] != "brace" or "{" in m[6]["t"])]
+    nonglob = [m for m in single if m[0] not in ("glob", "bglob")]
     npairs = 400 if tier == "quick" else 6000
     for _ in range(min(npairs, len(single))):
         m1, m2 = rnd.choice(single), rnd.choice(nonglob)
